@@ -4,6 +4,7 @@ import (
 	"fmt"
 	"go/token"
 	"go/types"
+	"strings"
 
 	"golang.org/x/tools/go/ssa"
 )
@@ -107,6 +108,51 @@ func c06(r *Report, s *Sem) {
 	R6 := r.Rule("R6", "after the session ends, sends fail: the client folds a server-initiated terminal session into its state as soon as the receiver sees it, and the server's FinishSession/FailSession leave the channel terminal even when writing the terminal envelope failed", 3)
 	checkClientFoldsTerminal(r, s, R6)
 	checkTerminatingCallsTerminal(r, s, R6)
+
+	R8 := r.Rule("R8", "server role: turning the channel established and announcing it are one step — from the call that sets the state to established every path reaches the emission of the established session envelope without running a callback and without returning in between (otherwise sends succeed, and the receiver routes inbound envelopes, on a session that was not, or not yet, established)", 1)
+	for _, fn := range p.LimeFuncs() {
+		if s.recvKind(fn) != "server" {
+			continue
+		}
+		eachInstr(fn, func(in ssa.Instruction) {
+			set, ok := in.(*ssa.Call)
+			if !ok {
+				return
+			}
+			g := set.Call.StaticCallee()
+			if g == nil || !(containsFn(a.setterFull, g) || containsFn(a.setterLocked, g)) || len(set.Call.Args) < 2 {
+				return
+			}
+			if cs, ok := constString(stripConv(set.Call.Args[len(set.Call.Args)-1])); !ok || cs != "established" {
+				return
+			}
+			var why []string
+			walkFrom(fn, set, walkOpts{
+				barrier: func(x ssa.Instruction) bool {
+					c, isCall := x.(*ssa.Call)
+					if !isCall {
+						return false
+					}
+					if containsFn(a.sessionSenders, c.Call.StaticCallee()) {
+						return true
+					}
+					if c.Call.StaticCallee() == nil && !c.Call.IsInvoke() {
+						if _, isBuiltin := c.Call.Value.(*ssa.Builtin); !isBuiltin {
+							why = append(why, "callback called at "+p.instrPos(x))
+							return true
+						}
+					}
+					return false
+				},
+				onExit: func(e ssa.Instruction, pred *ssa.BasicBlock) {
+					why = append(why, "exit at "+p.instrPos(e))
+				}})
+			r.Check(R8, "func "+fnName(fn)+" / established state is announced at once", p.instrPos(set), len(why) == 0, strings.Join(why, "; "))
+		})
+	}
+
+	R7 := r.Rule("R7", "the inbound streams are fed only by the receiver goroutine (R4: it exists only while established), so nothing read during the handshake can surface on them later", 5)
+	checkOnlyReceiverFeedsStreams(r, s, R7)
 
 	// ---- R4
 	if a.receiver == nil || a.goSite == nil || a.startFn == nil {
